@@ -17,7 +17,7 @@ import random
 import sys
 import threading
 
-from ..core import emit_behaviours, model_check, pool_map, sany, validate_traces
+from ..core import MachineryError, emit_behaviours, model_check, pool_map, run_tlc, sany, validate_traces
 from ..env import LoggerStub, boot
 
 META = {
@@ -624,6 +624,13 @@ class HSWorld:
             mod._Module__pollThread(mod.polledModules, started)
         except Started:
             pass
+        sm = mod._state_machine
+        sm_start = sm.start
+
+        def start(*args, **kwds):      # observable step inside start_machine(): the request is handed over
+            sm_start(*args, **kwds)
+            self.events.append({'ev': 'posted'})
+        sm.start = start
         del self.events[:]
 
     def kind(self, t):
@@ -693,6 +700,7 @@ class HSWorld:
                                 'st': '%d:%s' % (int(self.code(code)), text)})
         else:
             mod.doPoll()
+            self.events.append({'ev': 'polled'})
         if not nested:
             self.quiet()
 
@@ -714,12 +722,16 @@ def _hs_rand_op(rnd, poll=0.6):
     return {'op': 'stop', 'st': rnd.choice(HS_STOPPED)}
 
 
-def _hs_plan(seed, reentrant):
+def _hs_plan(seed, reentrant, quick=0.0):
+    """quick: extra probability that a state function ends the run at once (machines that finish
+    within their first cycle)"""
     def plan(kind, fn, i):
         rnd = random.Random(f'{seed}/hs/{kind}/{fn}/{i}')
         post = [_hs_rand_op(rnd, 0.0)] if reentrant and rnd.random() < 0.15 else []
         r = rnd.random()
-        if kind == 'call':
+        if kind == 'call' and rnd.random() < quick:
+            b = {'k': 'final', 'st': rnd.choice(HS_FINAL)} if rnd.random() < 0.7 else {'k': 'finish'}
+        elif kind == 'call':
             if r < 0.45:
                 b = {'k': 'retry'}
             elif r < 0.55:
@@ -784,6 +796,45 @@ def _hs_conc_scenario(seed):
     return out
 
 
+def _hs_req_scenario(seed):
+    """the dual of _hs_conc_scenario: the REQUEST (start_machine / stop_machine / stop command) runs in
+    thread 1 and is preempted before each of its lines; thread 2 is the poll thread doing one doPoll"""
+    out = []
+    nprefix = random.Random(seed).choice([0, 0, 1, 2, 3])
+    for kind in ('start', 'stop'):
+        k = n = None
+        while True:
+            rnd = random.Random(seed)
+            w = HSWorld(_hs_plan(seed, False, quick=0.5 if seed % 2 else 0.0), all_changes=seed % 4 != 0)
+            for _ in range(nprefix):
+                w.op(_hs_rand_op(rnd, 0.5))
+            op1 = {'op': 'start', 's': rnd.choice(HS_STATES[:3]), 'c': rnd.choice(['K', 'default']),
+                   'fast': rnd.random() < 0.7, 'status': rnd.choice(HS_OVERRIDE)} if kind == 'start' \
+                else {'op': 'stop', 'st': HS_STOPPED[1]} if seed % 3 else {'op': 'stopcmd'}
+            w.mod._state_machine._lock = LockProxy(w.mod._state_machine._lock)
+            w.mod.accessLock = LockProxy(w.mod.accessLock)
+            w.mod.updateLock = LockProxy(w.mod.updateLock)
+            p = Preempt(HS_FILES, k, lambda: w.op({'op': 'poll'}, nested=True))
+            total = p.run(lambda: w.op(op1, nested=True))
+            if p.errors:
+                w.events.append({'ev': 'raised', 'exc': p.errors[0]})
+            else:
+                if k is not None and not p.fired:
+                    w.op({'op': 'poll'}, nested=True)
+                w.quiet()
+                w.op({'op': 'poll'})
+                w.op({'op': 'poll'})
+            if k is not None:
+                out.append(({'seed': seed, 'kind': kind, 'k': k, 'lines': total, 'blocked': p.blocked}, w.events))
+            if k is None:
+                n, k = total, 1
+            else:
+                k += 1
+            if k > n:
+                break
+    return out
+
+
 def _hs_classify(trace, l):
     """history class of a rejected event (stable, used as finding signature)"""
     ev = trace[l - 1] if 0 < l <= len(trace) else {}
@@ -795,16 +846,28 @@ def _hs_classify(trace, l):
         if name in ('hook', 'quiet'):
             break
         seg.append(name)
-    request = 'no' if 'quiet' in after else 'started' if 'started' in seg else 'stopreq' if 'stopreq' in seg else 'no'
+    request = 'no' if 'quiet' in after else 'started' if 'started' in seg or 'posted' in seg else \
+        'stopreq' if 'stopreq' in seg else 'no'
     sig = {'event': ev.get('ev')}
     if ev.get('ev') == 'raised':
         sig['exc'] = ev['exc'].split('(')[0] + (':Stop.newstate' if "'Stop' object has no attribute 'newstate'" in ev['exc'] else '')
     elif ev.get('ev') == 'update':
         sig['busy'] = ev['busy']
+        if ev.get('own'):
+            sig['own'] = True           # published by start_machine() itself
         sig['request_while_run_ends'] = request
     elif ev.get('ev') == 'quiet':
         sig['state'] = 'active=%s pending=%s busy=%s fast=%s' % (ev['active'], ev['pending'], ev['busy'], ev['fast'])
         sig['request_while_run_ends'] = request
+    # the two known race families between a request and the cycle that ends a run (specific: which request,
+    # and what is wrong afterwards)
+    running = ev.get('ev') == 'quiet' and (ev['active'] or ev['pending'] == 'start')
+    if request == 'started' and not ev.get('busy', True) and (ev.get('ev') == 'update' or running):
+        sig['family'] = 'start request vs finishing run: not busy although started'
+    elif request == 'stopreq' and ev.get('ev') == 'quiet' and not running:
+        sig['family'] = 'stop request vs finishing run: status neither final nor stopped'
+    elif ev.get('ev') == 'quiet' and running == ev['busy'] and running != ev['fast']:
+        sig['family'] = 'fast polling out of step with the machine'
     return sig
 
 
@@ -825,7 +888,7 @@ def run(chk):
                 'distinct by its operation sequence incl. the behaviours chosen at each call, non-trivial if it '
                 'contains a cleanup call or a start picked up. code->spec: seeded random runs and line-preempted '
                 'runs, one trace each, judged by TLC')
-    for m in ('StateMachine', 'Gen_StateMachine', 'Trace_StateMachine', 'HasStates', 'Trace_HasStates'):
+    for m in ('StateMachine', 'Gen_StateMachine', 'Trace_StateMachine', 'HasStates', 'Trace_HasStates', 'HasStatesDesign'):
         sany(m)
     t = 'quick' if quick else 'thorough'
     chk.add_tlc(model_check('StateMachine', f'MC_StateMachine_{t}.cfg', timeout=1000))
@@ -879,6 +942,15 @@ def run(chk):
 
     # HasStates: BusyWhileRunning
     chk.add_tlc(model_check('HasStates', 'MC_HasStates.cfg', timeout=300))
+    # start_machine as the two steps it is, against cycles of the poll thread: fine when request and cycle
+    # exclude each other; the two unsynchronised orders must each break their invariant (the check has teeth)
+    chk.add_tlc(model_check('HasStatesDesign', 'MC_HasStatesDesign.cfg', timeout=300))
+    if not quick:
+        for cfg, inv in (('MC_HasStatesDesign_asimpl.cfg', 'BusyWhileRunning'),
+                         ('MC_HasStatesDesign_reordered.cfg', 'QuiescentNotBusy')):
+            r = run_tlc('HasStatesDesign', cfg, timeout=300)
+            if r.violated != ('invariant', inv):
+                raise MachineryError(f'{cfg} is expected to violate {inv}, got {r.violated or r.error}')
     n = 200 if quick else 4000
     seeds = [(chk.seed * 1000033 + i, 25) for i in range(n)]
     traces = pool_map(_hs_random_trace, seeds)
@@ -887,6 +959,11 @@ def run(chk):
     for part in pool_map(_hs_conc_scenario, [chk.seed * 7907 + i for i in range(ns)], chunksize=1):
         for meta, tr in part:
             metas.append(dict(meta, mode='preempt'))
+            traces.append(tr)
+    ns = 30 if quick else 400
+    for part in pool_map(_hs_req_scenario, [chk.seed * 7901 + i for i in range(ns)], chunksize=1):
+        for meta, tr in part:
+            metas.append(dict(meta, mode='preempt-request'))
             traces.append(tr)
     verdicts, st, tr = validate_traces('Trace_HasStates', traces, 'Trace_HasStates.cfg', timeout=1000)
     chk.states += st
@@ -899,6 +976,7 @@ def run(chk):
             chk.violation(sig, {'meta': metas[i], 'trace': traces[i], 'failed_at': v[0], 'clause': v[1]})
     chk.sample({'hasstates_trace_prefix': traces[0][:8]})
     chk.notes['hasstates_preempted_runs'] = sum(1 for m in metas if m['mode'] == 'preempt')
+    chk.notes['hasstates_preempted_requests'] = sum(1 for m in metas if m['mode'] == 'preempt-request')
     chk.assumptions += ['thread switches are placed at line boundaries of frappy/lib/statemachine.py and '
                         'frappy/states.py (CPython GIL); the second thread performs ONE start/stop request per cycle',
                         'state functions, cleanup function and hook are plain Python functions; raising hooks and '
@@ -916,7 +994,8 @@ def replay(chk, rep):
             print(e)
         print('TLC rejected event', d['failed_at'])
     elif hs:
-        for meta, tr in _hs_conc_scenario(d['meta']['seed']):
+        fn = _hs_req_scenario if d['meta']['mode'] == 'preempt-request' else _hs_conc_scenario
+        for meta, tr in fn(d['meta']['seed']):
             if meta['k'] == d['meta']['k'] and meta['kind'] == d['meta']['kind']:
                 for e in tr:
                     print(e)
